@@ -1,5 +1,6 @@
 """C19 - stored channel state is never lost or torn by the storage layer (structural part)."""
 from engine import *
+import linforms
 import provenance
 import guards
 import arith
@@ -477,3 +478,4 @@ def r19k(F, rid='19.k'):
 RULES.append(('19.k', 'the storage key of a monitor (ChannelMonitor::persistence_key) is computed only from fields that are never written after construction', r19k))
 RULES.append(('19.X', 'error propagation: once a branch has found a Result of the function\'s own error type to be Err, no path returns Ok(..) or an unrelated value - a failed KVStore write / remove / read is not reported as success by the storage layer (value-refined walk, rules/errprop.py)', lambda F: errprop.rule(F, '19.X', r'util/persist\.rs$|lightning-persister/', 5, exceptions={'list_paginated_with_values': 'a key removed between listing and reading is not part of the page (NotFound only; every other error is returned)', 'list': 'a directory entry that vanished between read_dir and the check is skipped / included by design', 'list_paginated_impl': 'same tolerance as list for entries deleted during the scan'})))
 RULES.append(('19.N', 'arithmetic census: per reviewed function the set of operation kinds (group: add/sub, mul, div, rem, shift, bit, min, max, div_ceil ...; flavour: plain / checked / saturating / wrapping) keeps its kinds: no reviewed function lost or gained a kind of arithmetic altogether - a rounding direction (`/` for div_ceil), saturating for checked, min for max (rules/arith.py; counts and value arithmetic itself are not judged)', lambda F: arith.for_property(F, 'C19', '19.N')))
+RULES.append(('19.K', 'constant census of linear forms: every comparison (normalised to sum >= K over name-free atoms, a comparison and its negation being one form) and every maximal arithmetic expression of a reviewed function keeps its coefficients and its constant - a dropped or added `+ 1` / `- 1`, `<` for `<=` inside a computed bound, a scale factor applied twice or not at all, swapped operands of a comparison (rules/linforms.py; shapes that appear or disappear are not judged, the guard / arithmetic censuses judge those)', lambda F: linforms.for_property(F, 'C19', '19.K')))
